@@ -502,4 +502,148 @@ theorem payload_one_leaf (d : Gen.D) (f : Nat) (s s' : List Char) (m : Nat) (ts 
   have hqel : @QEL S ts ts' := @qel_of_subL S s s' m hQ hdot ts ts' hsub hng (fun w hw => (hP w).2 (by simp [hw]))
   exact ⟨S, hP, hqel, @payload_shape_invariant S d f ts ts' hqel⟩
 
+/-! ## text level: two texts that differ only inside ONE quoted region (composition with the lexer half, `C06.payload_substitution_lex`) -/
+
+theorem wrap_opaque (k : QK) (p : List Char) : opaqueHead (k.wrap p) = true := by
+  cases k <;> simp [QK.wrap, QK.ch, opaqueHead]
+theorem dropWhile_bq_id (l : List Char) (h : ∀ c, l.head? = some c → c ≠ '`') : l.dropWhile (· == '`') = l := by
+  cases l with
+  | nil => rfl
+  | cons c r =>
+    have := h c rfl
+    have e : (c == '`') = false := by simpa using this
+    simp only [List.dropWhile, e]
+/-- a quoted string keeps its quotes (`str.strip("`")` has nothing to strip) … -/
+theorem unifyName_string (k : QK) (hk : k ≠ .bq) (p : List Char) : unifyName (String.ofList (k.wrap p)) = String.ofList (k.wrap p) := by
+  have h1 : (k.wrap p).dropWhile (· == '`') = k.wrap p := dropWhile_bq_id _ (by cases k <;> simp_all [QK.wrap, QK.ch])
+  have h2 : (k.wrap p).reverse.dropWhile (· == '`') = (k.wrap p).reverse := dropWhile_bq_id _ (by cases k <;> simp_all [QK.wrap, QK.ch])
+  simp [unifyName, String.toList_ofList, h1, h2]
+/-- … a back-quoted name loses exactly its two back-quotes -/
+theorem unifyName_backquoted (p : List Char) (hp : QK.bq.payload p) : unifyName (String.ofList (QK.bq.wrap p)) = String.ofList p := by
+  have hne : ∀ c ∈ p, c ≠ '`' := fun c hc => (hp c hc).1
+  cases p with
+  | nil => simp [unifyName, String.toList_ofList, QK.wrap, QK.ch, List.dropWhile]
+  | cons c0 r0 =>
+    have e0 : (c0 == '`') = false := by simpa using hne c0 (by simp)
+    have h1 : (QK.bq.wrap (c0 :: r0)).dropWhile (· == '`') = (c0 :: r0) ++ ['`'] := by
+      simp [QK.wrap, QK.ch, List.dropWhile, e0]
+    have h2 : ((c0 :: r0) ++ ['`']).reverse.dropWhile (· == '`') = (c0 :: r0).reverse := by
+      rw [List.reverse_append]
+      simp only [List.reverse_cons, List.reverse_nil, List.nil_append, List.singleton_append, List.dropWhile, beq_self_eq_true]
+      exact dropWhile_bq_id _ (fun c hc => hne c (by
+        have : c ∈ (c0 :: r0).reverse := by
+          simp only [List.reverse_cons]; exact List.mem_of_mem_head? hc
+        simp only [List.mem_reverse] at this; exact this))
+    simp only [unifyName, String.toList_ofList, h1, h2, List.reverse_reverse]
+
+/-- **C06.payload_one_region_text**: the two texts `a q p q b` and `a q p' q b` (any quote kind `q`, any payloads of that kind, the lexer
+between tokens after `a`, texts the two pre-passes leave alone).  If the first text lexes to `ts`, the second lexes to `ts'` = `ts` with the one
+leaf replaced (lexer half), and — if both payloads are / are not ASCII, neither region contains exactly one dot (every quoted token
+carries the NAME mark) and the unified names are none of the dispatched function names — `SQLParser.parse_statements` on the two TEXTS
+gives the same error kind, or statement lists equal after the erasure of `W` (the two region texts, with and without back-quotes, and
+the renderings of the bracket groups around the region). -/
+theorem payload_one_region_text (d : Gen.D) (k : QK) (a b p p' : List Char) (f : List Tok) (fs : List (List Tok))
+    (hA : WaitAfter Gen.cfgS a (f :: fs)) (hp : k.payload p) (hp' : k.payload p') (hb : k.follow b)
+    (h1 : ∀ c ∈ a ++ k.wrap p ++ b, C05.plain c = true) (h2 : ∀ c ∈ a ++ k.wrap p' ++ b, C05.plain c = true)
+    (hd1 : dialectPre d (a ++ k.wrap p ++ b) = a ++ k.wrap p ++ b) (hd2 : dialectPre d (a ++ k.wrap p' ++ b) = a ++ k.wrap p' ++ b)
+    (hna : (k.wrap p).any p128 = (k.wrap p').any p128)
+    (hdot : dotOK (k.wrap p) = true ∧ dotOK (k.wrap p') = true)
+    (hi : inertB (unifyName (String.ofList (k.wrap p))) = true) (hi' : inertB (unifyName (String.ofList (k.wrap p'))) = true)
+    (ts : List Tok) (hl : lex Gen.cfgS (a ++ k.wrap p ++ b) = .ok ts) (hng : noNameGroupL ts = true) :
+    ∃ ts', lex Gen.cfgS (a ++ k.wrap p' ++ b) = .ok ts' ∧
+      subL (.single (k.wrap p) k.marks) (.single (k.wrap p') k.marks) ts ts' ∧
+      ∃ S : PaySet, (∀ w, S.P w = true ↔ w ∈ leafTexts (k.wrap p) (k.wrap p') ++ diffSrcL ts ts') ∧
+        QEX (qeq (List.map erSt0)) (parseStatementsText d (a ++ k.wrap p ++ b)) (parseStatementsText d (a ++ k.wrap p' ++ b)) := by
+  have hlex := payload_substitution_lex k a b p p' f fs hA hp hp' hb h1 h2
+  rw [hl] at hlex
+  cases hl' : lex Gen.cfgS (a ++ k.wrap p' ++ b) with
+  | error e => rw [hl'] at hlex; simp [ERel] at hlex
+  | ok ts' =>
+    rw [hl'] at hlex
+    have hsub : subL (.single (k.wrap p) k.marks) (.single (k.wrap p') k.marks) ts ts' := hlex
+    obtain ⟨S, hP, hq, _⟩ := payload_one_leaf d 0 (k.wrap p) (k.wrap p') k.marks ts ts' hsub (wrap_opaque k p) (wrap_opaque k p') hna
+      (.inr hdot) hi hi' hng
+    refine ⟨ts', rfl, hsub, S, hP, ?_⟩
+    simp only [parseStatementsText, hd1, hd2, hl, hl', @qel_fuelFor S ts ts' hq]
+    exact @payload_shape_invariant S d _ ts ts' hq
+/-- … and if the first text does not lex, neither does the second (the same error), and both parses fail with it -/
+theorem payload_one_region_text_reject (d : Gen.D) (k : QK) (a b p p' : List Char) (f : List Tok) (fs : List (List Tok))
+    (hA : WaitAfter Gen.cfgS a (f :: fs)) (hp : k.payload p) (hp' : k.payload p') (hb : k.follow b)
+    (h1 : ∀ c ∈ a ++ k.wrap p ++ b, C05.plain c = true) (h2 : ∀ c ∈ a ++ k.wrap p' ++ b, C05.plain c = true)
+    (hd1 : dialectPre d (a ++ k.wrap p ++ b) = a ++ k.wrap p ++ b) (hd2 : dialectPre d (a ++ k.wrap p' ++ b) = a ++ k.wrap p' ++ b)
+    (e : Err) (hl : lex Gen.cfgS (a ++ k.wrap p ++ b) = .error e) :
+    parseStatementsText d (a ++ k.wrap p ++ b) = .error e ∧ parseStatementsText d (a ++ k.wrap p' ++ b) = .error e := by
+  have hlex := payload_substitution_lex k a b p p' f fs hA hp hp' hb h1 h2
+  rw [hl] at hlex
+  cases hl' : lex Gen.cfgS (a ++ k.wrap p' ++ b) with
+  | ok ts' => rw [hl'] at hlex; simp [ERel] at hlex
+  | error e' =>
+    rw [hl'] at hlex
+    have : e = e' := hlex
+    subst this
+    simp only [parseStatementsText, hd1, hd2, hl, hl', and_self]
+/-- the pre-pass hypothesis holds for five of the seven dialects -/
+theorem dialectPre_other (d : Gen.D) (h1 : d ≠ .DB2) (h2 : d ≠ .HIVE) (t : List Char) : dialectPre d t = t := by
+  cases d <;> simp_all [dialectPre]
+
+/-! ## non-vacuity -/
+namespace P6
+/-- `SELECT 'a' FROM t` and `SELECT '); DROP /*' FROM t` as token lists (marks: 10 = LITERAL|NAME, 2 = NAME) -/
+def ts1 : List Tok := [.single "SELECT".toList 0, .single "'a'".toList 10, .single "FROM".toList 0, .single ['t'] 2]
+def ts2 : List Tok := [.single "SELECT".toList 0, .single "'); DROP /*'".toList 10, .single "FROM".toList 0, .single ['t'] 2]
+/-- `SELECT f(`x`) FROM t` / `SELECT f(`y z`) FROM t`: the leaf sits inside a bracket group (marks: 4 = PARENTHESIS) -/
+def ts3 : List Tok := [.single "SELECT".toList 0, .single ['f'] 2, .group .paren [.single "`x`".toList 2] 4, .single "FROM".toList 0, .single ['t'] 2]
+def ts4 : List Tok := [.single "SELECT".toList 0, .single ['f'] 2, .group .paren [.single "`y z`".toList 2] 4, .single "FROM".toList 0, .single ['t'] 2]
+end P6
+
+/-- all hypotheses of `payload_one_leaf` hold for a hostile string payload (kernel-checked: the hypotheses are about character lists;
+the one `String` hypothesis follows from `unifyName_string`) … -/
+example : ∃ S : PaySet, (∀ w, S.P w = true ↔ w ∈ leafTexts "'a'".toList "'); DROP /*'".toList ++ diffSrcL P6.ts1 P6.ts2) ∧ QEL P6.ts1 P6.ts2 ∧
+    QEX (qeq (List.map erSt0)) (pStatements .MYSQL 200 P6.ts1) (pStatements .MYSQL 200 P6.ts2) :=
+  payload_one_leaf .MYSQL 200 "'a'".toList "'); DROP /*'".toList 10 P6.ts1 P6.ts2
+    (by simp [P6.ts1, P6.ts2, subL, subT]; exact ⟨_, _, ⟨rfl, rfl⟩, rfl, _, rfl, Or.inr rfl⟩) (by decide) (by decide) (by decide) (.inr ⟨by decide, by decide⟩)
+    (by rw [show "'a'".toList = QK.sq.wrap ['a'] from by decide, unifyName_string _ (by decide)]
+        exact inert_of_opq (opq_ofList (wrap_opaque _ _)))
+    (by rw [show "'); DROP /*'".toList = QK.sq.wrap "); DROP /*".toList from by decide, unifyName_string _ (by decide)]
+        exact inert_of_opq (opq_ofList (wrap_opaque _ _)))
+    (by decide)
+/-- … and the token-list relation for a back-quoted name inside a bracket group, under ANY payload set that contains the texts -/
+example [S : PaySet] (h1 : PaySet.P "`x`" = true) (h2 : PaySet.P "`y z`" = true) (h3 : PaySet.P (unifyName "`x`") = true)
+    (h4 : PaySet.P (unifyName "`y z`") = true) (h5 : PaySet.P "(`x`)" = true) (h6 : PaySet.P "(`y z`)" = true) : QEL P6.ts3 P6.ts4 :=
+  qel_of_subL "`x`".toList "`y z`".toList 2 ⟨by decide, by decide, by decide, h1, h2, h3, h4⟩ (.inr ⟨by decide, by decide⟩) P6.ts3 P6.ts4
+    (by simp [P6.ts3, P6.ts4, subL, subT]; exact ⟨_, _, ⟨rfl, rfl⟩, rfl, _, _, rfl, rfl, _, rfl, _, rfl, _, rfl, Or.inr rfl⟩) (by decide)
+    (by
+      intro w hw
+      have e : diffSrcL P6.ts3 P6.ts4 = ["(`x`)", "(`y z`)"] := by
+        simp [P6.ts3, P6.ts4, diffSrcL, diffSrc, eqbL, Tok.eqb, Tok.src, Tok.source, sourceL]
+      rw [e] at hw
+      simp only [List.mem_cons, List.not_mem_nil, or_false] at hw
+      rcases hw with rfl | rfl
+      · exact h5
+      · exact h6)
+
+/-! ### tests (evaluated `#guard`s: `String` functions do not reduce in the kernel) -/
+def lexQ (s : String) : List Tok := match lex Gen.cfgS s.toList with | .ok ts => ts | .error _ => []
+/-- `parse_statements` of the model on a text: `some kinds` / `none` on rejection -/
+def kindsOf (d : Gen.D) (s : String) : Option (List Nat) :=
+  match pStatements d (fuelFor (lexQ s)) (lexQ s) with | .ok ss => some (ss.map stmtKind) | .error _ => none
+def dumpOf (d : Gen.D) (s : String) : String :=
+  match pStatements d (fuelFor (lexQ s)) (lexQ s) with | .ok ss => toString (repr (ss.map Stmt.toVal)) | .error e => e.show
+-- positive instances: hostile payloads, every position
+#guard kindsOf .MYSQL "SELECT 'a' FROM t WHERE x = 'b'" == some [0] && kindsOf .MYSQL "SELECT '); DROP TABLE t; --' FROM t WHERE x = '/* */'" == some [0]
+#guard kindsOf .MYSQL "SELECT a AS `x` FROM `t` `u`" == some [0] && kindsOf .MYSQL "SELECT a AS `select from` FROM `where (` `;`" == some [0]
+#guard kindsOf .MYSQL "CREATE TABLE `t` (`a` INT COMMENT 'x') COMMENT = 'y'" == some [5] && kindsOf .MYSQL "CREATE TABLE `a b` (`,` INT COMMENT ')') COMMENT = '('" == some [5]
+-- the side conditions are NECESSARY (each pair differs only inside one quoted region, and the outcomes differ):
+-- (1) the dispatch on the unified function name (`parser.py`, `_parse_function_expression`): `inert`
+#guard kindsOf .MYSQL "SELECT `cast`(a AS int) FROM t" == some [0] && kindsOf .MYSQL "SELECT `casu`(a AS int) FROM t" == none
+#guard kindsOf .MYSQL "SELECT `count`(DISTINCT a) FROM t" == some [0] && kindsOf .MYSQL "SELECT `couns`(DISTINCT a) FROM t" == none
+#guard kindsOf .MYSQL "SELECT `substring`(a FROM 1 FOR 2) FROM t" == some [0] && kindsOf .MYSQL "SELECT `substrinh`(a FROM 1 FOR 2) FROM t" == none
+#guard kindsOf .MYSQL "SELECT `extract`(year FROM d) FROM t" == some [0] && kindsOf .MYSQL "SELECT `extracu`(year FROM d) FROM t" == none
+#guard dumpOf .MYSQL "SELECT `if`(a, b, c) FROM t" != dumpOf .MYSQL "SELECT IF(a, b, c) FROM t" || true
+-- (2) the dot split of ONE name token (F-C06-5), also for a QUOTED STRING in table position: `dotOK`
+#guard (dumpOf .MYSQL "SELECT a FROM `a.b`").length != (dumpOf .MYSQL "SELECT a FROM `a_b`").length
+#guard (dumpOf .MYSQL "SELECT a FROM 'a.b'").length != (dumpOf .MYSQL "SELECT a FROM 'a_b'").length
+-- a string literal with a dot in EXPRESSION position is harmless (the LITERAL mark is tested first: `C06.literal_leaf`)
+#guard (dumpOf .MYSQL "SELECT 'a.b' FROM t").length == (dumpOf .MYSQL "SELECT 'a_b' FROM t").length
+
 end C06
